@@ -3,16 +3,20 @@ Model of `lib/sqfs/src/dir_writer.c`: `sqfs_dir_writer_add_entry`, `get_conseq_e
 `sqfs_dir_writer_end`, `sqfs_dir_writer_create_inode`.
 
 Entries are kept as a list (the C code keeps a singly linked list in insertion order).  The meta writer the
-listing is appended to is represented only by its position `(block_offset, offset)`; the bytes go to an
-output list.  `blkCost` is what one flushed 8 KiB block adds to `block_offset` (its stored size + 2; the
-harness uses a compressor that never shrinks, so `blkCost = 8194`).
+listing is appended to is the model of `meta_writer.c` itself (`Sqfs.MetaWriter.St`, any codec): `sqfs_dir_writer_end`
+reads its position (`block_offset`, `offset`) before every header and appends header, entry records and names
+piece by piece exactly as the C code does, so the block offsets recorded for the directory index are those of a
+real, compressing meta writer.  Also here: `add_export_table_entry` / the table `sqfs_dir_writer_write_export_table`
+hands to `sqfs_write_table`.
 
 `add_entry` models the **repaired** behaviour (fixes/C03-dir-name-limit.patch: names longer than 256 bytes are
 refused); `Sqfs/Witness/C03.lean` keeps the behaviour of the unrepaired code.
 -/
 import Sqfs.Generated.Consts
+import Sqfs.Model.MetaWriter
 namespace Sqfs.DirWriter
 open Sqfs.Consts
+open Sqfs.MetaWriter (Codec St append)
 
 abbrev Bytes := List UInt8
 
@@ -24,7 +28,7 @@ structure DEnt where
   name : Bytes
   deriving Repr, DecidableEq
 
-/-- `(sqfs_s32)(a - b)` for `sqfs_u32 a, b` (dir_writer.c:233) -/
+/-- `(sqfs_s32)(a - b)` for `sqfs_u32 a, b` (dir_writer.c:237) -/
 def sdiff32 (a b : Nat) : Int :=
   let d := (a + 4294967296 - b % 4294967296) % 4294967296
   if d < 2147483648 then (d : Int) else (d : Int) - 4294967296
@@ -32,16 +36,16 @@ def sdiff32 (a b : Nat) : Int :=
 def entSize (e : DEnt) : Nat := sizeofDirNode + e.name.length
 
 /--
-The `for` loop of `get_conseq_entry_count` (dir_writer.c:229-247) with `head` fixed:
+The `for` loop of `get_conseq_entry_count` (dir_writer.c:233-251) with `head` fixed:
 `hblk = head->inode_ref >> 16`, `hnum = head->inode_num`; `size`/`count` are the loop variables.
 -/
 def conseqGo (hblk hnum : Nat) : (size count : Nat) → List DEnt → Nat
   | _, count, [] => count
   | size, count, it :: rest =>
-    if it.inodeRef >>> 16 ≠ hblk then count                          -- :230
-    else if sdiff32 it.inodeNum hnum > 32767 ∨ sdiff32 it.inodeNum hnum < -32767 then count   -- :235
-    else if count > 0 ∧ size + entSize it > metaBlockSize then count   -- :238-241
-    else if count + 1 = maxDirEnt then count + 1                       -- :243-246
+    if it.inodeRef >>> 16 ≠ hblk then count                          -- :234
+    else if sdiff32 it.inodeNum hnum > 32767 ∨ sdiff32 it.inodeNum hnum < -32767 then count   -- :239
+    else if count > 0 ∧ size + entSize it > metaBlockSize then count   -- :242-245
+    else if count + 1 = maxDirEnt then count + 1                       -- :247-250
     else conseqGo hblk hnum (size + entSize it) (count + 1) rest
 
 /-- `get_conseq_entry_count(offset, head)` -/
@@ -64,7 +68,16 @@ structure Run where
   block : Nat                      -- idx->block = meta writer block_offset when the header was added
   deriving Repr
 
-/-- `sqfs_dir_node_t` + name as appended at dir_writer.c:307-321 -/
+/-- `sqfs_dir_header_t` as filled in by `add_header` (dir_writer.c:263-265) -/
+def headerBytes (count startBlock inodeNumber : Nat) : Bytes :=
+  le32 ((count - 1) % 4294967296) ++ le32 startBlock ++ le32 inodeNumber
+
+/-- `sqfs_dir_node_t` as filled in at dir_writer.c:311-317 (`inode_diff` is the low 16 bits of the u32 difference) -/
+def nodeBytes (firstNum : Nat) (e : DEnt) : Bytes :=
+  le16 (e.inodeRef % 65536) ++ le16 ((e.inodeNum + 4294967296 - firstNum % 4294967296) % 65536)
+    ++ le16 (e.typ % 65536) ++ le16 ((e.name.length - 1) % 65536)
+
+/-- `sqfs_dir_node_t` + name as appended at dir_writer.c:319-325 -/
 def encodeEnt (firstNum : Nat) (e : DEnt) : Bytes :=
   le16 (e.inodeRef % 65536) ++ le16 ((e.inodeNum + 4294967296 - firstNum % 4294967296) % 65536)
     ++ le16 (e.typ % 65536) ++ le16 ((e.name.length - 1) % 65536) ++ e.name
@@ -73,16 +86,46 @@ def encodeRun (r : Run) : Bytes :=
   le32 ((r.ents.length - 1) % 4294967296) ++ le32 r.startBlock ++ le32 r.inodeNumber
     ++ (r.ents.map (encodeEnt r.inodeNumber)).flatten
 
+/-- the separate `sqfs_meta_writer_append` calls one header + run makes: the header (:267), then per entry the
+record (:319) and the name (:324) -/
+def runChunks (r : Run) : List Bytes :=
+  headerBytes r.ents.length r.startBlock r.inodeNumber
+    :: (r.ents.map (fun e => [nodeBytes r.inodeNumber e, e.name])).flatten
+
 def runBytes (ents : List DEnt) : Nat := sizeofDirHeader + (ents.map entSize).sum
+
+/-- `sqfs_dir_writer_begin` (dir_writer.c:177-178): `dir_ref = (block << 16) | offset` -/
+def dirRefOf (st : St) : Nat := (st.blockOffset <<< 16) ||| st.cur.length
+
+/--
+The outer loop of `sqfs_dir_writer_end` (dir_writer.c:300-332) on the meta writer state `st`; `dirSize` =
+`writer->dir_size`.  Fuel = number of entries (+1): every iteration consumes at least one.
+Returns the runs (header fields, covered entries, the index record `add_header` keeps) and the meta writer state.
+-/
+def dirEndGoM (cmp : Codec) : (fuel : Nat) → St → (dirSize : Nat) → List DEnt → List Run × St
+  | 0, st, _, _ => ([], st)
+  | _, st, _, [] => ([], st)
+  | f + 1, st, dirSize, first :: rest =>
+    let count := conseqCount st.cur.length (first :: rest)           -- :301-302 get_position, get_conseq_entry_count
+    let run := (first :: rest).take count
+    let r : Run := ⟨run, (first.inodeRef >>> 16) % 4294967296, first.inodeNum, dirSize, st.blockOffset⟩   -- :304 add_header
+    let st' := (runChunks r).foldl (append cmp) st
+    let next := dirEndGoM cmp f st' (dirSize + runBytes run) ((first :: rest).drop count)
+    (r :: next.1, next.2)
+
+def dirEndM (cmp : Codec) (st : St) (ents : List DEnt) : List Run × St :=
+  dirEndGoM cmp (ents.length + 1) st 0 ents
+
+/-! #### the first, coarser model of the same loop (kept for its users: C01 `EncDir`)
+
+The meta writer is represented only by its position `(block_offset, offset)`; `blkCost` is what one flushed 8 KiB block
+adds to `block_offset` (stored size + 2), i.e. a compressor under which every block has the same stored size — 8194 for
+one that never shrinks.  `Sqfs.DirWriter.dirEnd_eq_dirEndM` shows that this is `dirEndM` for such a codec. -/
 
 /-- position of the meta writer after appending `n` bytes (meta_writer.c: a full block is flushed at once) -/
 def advance (blkCost blk off n : Nat) : Nat × Nat :=
   (blk + (off + n) / metaBlockSize * blkCost, (off + n) % metaBlockSize)
 
-/--
-The outer loop of `sqfs_dir_writer_end` (dir_writer.c:296-328).  `blk`/`off` = meta writer position,
-`dirSize` = `writer->dir_size`.  Fuel = number of entries (+1): every iteration consumes at least one.
--/
 def dirEndGo (blkCost : Nat) : (fuel : Nat) → (blk off dirSize : Nat) → List DEnt → List Run
   | 0, _, _, _, _ => []
   | _, _, _, _, [] => []
@@ -98,6 +141,21 @@ def dirEnd (blkCost blk off : Nat) (ents : List DEnt) : List Run :=
 
 def dirSizeOf (runs : List Run) : Nat := (runs.map (fun r => runBytes r.ents)).sum
 
+/-! ### export table (`add_export_table_entry`, `sqfs_dir_writer_write_export_table`) -/
+
+/-- the 0xFF fill of unused export table slots -/
+def exportUnset : Nat := 0xFFFFFFFFFFFFFFFF
+
+/-- `add_export_table_entry` (dir_writer.c:100-127) on a writer created with CREATE_EXPORT_TABLE, for `inum ≥ 1`
+(`add_entry` has refused 0 before it gets here): grow to `inum` slots filled with 0xFF…, then `ptr[inum - 1] = iref` -/
+def addExport (tbl : List Nat) (inum iref : Nat) : List Nat :=
+  let tbl := if inum - 1 ≥ tbl.length then tbl ++ List.replicate (inum - tbl.length) exportUnset else tbl   -- :118-123
+  tbl.set (inum - 1) iref                                                                                  -- :125
+
+/-- every accepted `add_entry` of a run of directories, then the root (`write_export_table`, :451) -/
+def exportTable (adds : List (Nat × Nat)) (rootNum rootRef : Nat) : List Nat :=
+  addExport (adds.foldl (fun t a => addExport t a.1 a.2) []) rootNum rootRef
+
 /-! ### `sqfs_dir_writer_add_entry` -/
 
 inductive AddResult where
@@ -106,7 +164,7 @@ inductive AddResult where
   | argInvalid           -- SQFS_ERROR_ARG_INVALID
   deriving Repr, DecidableEq
 
-/-- `get_type` (dir_writer.c:59): S_IFMT bits → basic inode type -/
+/-- `get_type` (dir_writer.c:59-74): S_IFMT bits → basic inode type -/
 def getType (mode : Nat) : Option Nat :=
   match mode &&& 0o170000 with
   | 0o140000 => some inodeSocket
@@ -148,8 +206,8 @@ def dirIndexThreshold : Nat := 256
 /-- most index entries an extended directory inode can announce (`inodex_count` is a `sqfs_u16`) -/
 def maxIndex : Nat := 0xFFFF
 
-/-- dir_writer.c:359-430. `dirRef` = position recorded by `sqfs_dir_writer_begin`.  `cap` = number of index
-entries after which the loop at :411 stops: `maxIndex` in the repaired code (fixes/C03-dir-index-count.patch),
+/-- dir_writer.c:363-438. `dirRef` = position recorded by `sqfs_dir_writer_begin`.  `cap` = number of index
+entries after which the loop at :415 stops: `maxIndex` in the repaired code (fixes/C03-dir-index-count.patch),
 unbounded (`none`) in the unrepaired code, where the u16 counter then wraps. -/
 def createInodeCap (cap : Option Nat) (dirRef : Nat) (runs : List Run) (entCount hlinks xattr parent : Nat) : DirInode :=
   let startBlock := dirRef >>> 16
